@@ -432,8 +432,18 @@ ViewFail(S, e) ==
         \cup Chk(borrows \/ DropIds(e) = Range(SubSeq(w, Max(Len(w) - e.i, 0) + 1, Len(w))), IF vw.kind = "drain" THEN "C03,C09" ELSE "C03,C08", "nth_skipped_elements")
       [] op \in {"v_len", "v_size_hint"} ->
              Chk(e.ret.k = "n" /\ e.ret.n = Len(w) /\ e.ret.ids2 = <<Len(w), Len(w)>>, vh, "len")
-      [] op = "v_rest" ->
-             Chk(e.ret.k = "ids" /\ e.ret.ids = (IF e.i = 1 THEN Rev(w) ELSE w), vh, "rest")
+      [] op = "v_rest" ->      \* e.acc: a provided method taking the iterator by value (fold, rfold, for_each, collect, rev().collect, count, last)
+             CASE e.acc = "count" ->
+                     Chk(e.ret.k = "n" /\ e.ret.n = Len(w), vh, "count")
+                \cup Chk(borrows \/ DropIds(e) = Range(w), IF vw.kind = "drain" THEN "C03,C09" ELSE "C03,C08", "count_skipped_elements")
+               [] e.acc = "last" ->
+                     Chk(IF w = <<>> THEN RetNone(e) ELSE RetSome(e, w[Len(w)]), vh, "last")
+                \cup Chk(borrows \/ DropIds(e) = Range(Take(w, Max(Len(w) - 1, 0))), IF vw.kind = "drain" THEN "C03,C09" ELSE "C03,C08", "last_skipped_elements")
+                \cup Chk(w = <<>> \/ ~borrows \/ e.ret.k # "some" \/ e.ret.slots = <<SlotOfId(S, vw.h, w[Len(w)])>>, "C07,C08", "address")
+               [] OTHER ->
+                     Chk(e.ret.k = "ids" /\ e.ret.ids = (IF e.i = 1 THEN Rev(w) ELSE w), vh, "rest")
+                \cup Chk(e.acc = "" \/ ~borrows \/ e.ret.k # "ids" \/ Len(e.ret.slots) # Len(w) \/
+                         \A j \in 1..Len(w) : e.ret.slots[j] = SlotOfId(S, vw.h, (IF e.i = 1 THEN Rev(w) ELSE w)[j]), "C07,C08", "address")
       [] op = "v_clone" ->
              Chk(e.ret.k = "n" /\ e.ret.n = Len(w), vh, "clone_len")
       [] op = "v_debug" ->      \* Debug of a view lists exactly the elements it has not produced yet
@@ -548,7 +558,7 @@ ByteFail(S, e) ==
     ELSE IF e.op = "poison" THEN Chk(ps = seq, pr, "contents")
     ELSE
          Chk(~e.unw, "C11", "unexpected_panic") \cup Chk(~e.unw, pr, "unexpected_panic")
-    \cup Chk(e.ret.k # "err" /\ (e.ret.k # "eof" \/ e.op = "read_exact"), pr, "io_error")
+    \cup Chk((e.ret.k # "err" \/ (e.op = "read_to_string" /\ e.i = 0)) /\ (e.ret.k # "eof" \/ e.op = "read_exact"), pr, "io_error")
     \cup Chk(~e.ret.b, "C16", "future_pending")
     \cup PostFail(S, e, pr)
     \cup (IF e.unw THEN {} ELSE
@@ -575,6 +585,36 @@ ByteFail(S, e) ==
              \cup Chk(~e.post.obs \/ e.ret.k # "ids" \/ IsPrefix(e.ret.slots, e.post.slots), pr, "fill_buf_address")
              \cup Chk(ps = seq, pr, "contents")
             [] e.op = "consume" -> Chk(e.ret.k = "unit", pr, "consume") \cup Chk(ps = DropN(seq, Min(e.i, n)), pr, "contents")
+            \* observers on a primitive element type: what a Hasher is fed (write() call by write() call) is a function
+            \* of the logical contents (e.ret.s2: the same for a fresh buffer holding the same bytes); such a buffer is
+            \* equal in every way (==, !=, cmp, partial_cmp, Debug, clone())
+            [] e.op = "hash" ->
+                  Chk(e.ret.k = "str" /\ e.ret.s = e.ret.s2, "C04,C13", "hash_depends_on_layout")
+             \cup Chk(e.ret.n = 1, "C04,C13", "equal_contents_compare_unequal")
+             \cup Chk(ps = seq, "C13", "contents")
+            \* provided methods of std::io::Read / BufRead / Write (a crate may override them)
+            [] e.op = "read_to_end" ->
+                  Chk(e.ret.k = "n" /\ e.ret.n = n /\ e.ret.ids = seq, pr, "read_to_end") \cup Chk(ps = <<>>, pr, "contents")
+            [] e.op = "read_to_string" ->       \* e.i = 1: the contents are valid UTF-8 (decided by the harness with core::str)
+                  IF e.i = 1
+                  THEN Chk(e.ret.k = "n" /\ e.ret.n = n /\ e.ret.ids = seq, pr, "read_to_string") \cup Chk(ps = <<>>, pr, "contents")
+                  ELSE Chk(e.ret.k = "err" /\ e.ret.s = "InvalidData" /\ e.ret.ids = <<>>, pr, "read_to_string_invalid_utf8")
+                  \cup Chk(Len(ps) <= n /\ ps = LastN(seq, Len(ps)), pr, "contents")
+            [] e.op = "read_until" ->           \* up to and including the first delimiter e.i, or everything
+                  LET hits == {j \in 1..n : seq[j] = e.i}
+                      k == IF hits = {} THEN n ELSE CHOOSE j \in hits : \A j2 \in hits : j <= j2 IN
+                  Chk(e.ret.k = "n" /\ e.ret.n = k /\ e.ret.ids = Take(seq, k), pr, "read_until") \cup Chk(ps = DropN(seq, k), pr, "contents")
+            [] e.op = "read_vectored" ->        \* any positive amount that fits, into the buffers in order
+                  LET total == e.vals[1] + e.vals[2]  k == e.ret.n IN
+                  Chk(e.ret.k = "n" /\ k <= Min(total, n) /\ (total > 0 /\ n > 0 => k > 0), pr, "read_count")
+             \cup Chk(k > n \/ e.ret.ids = Take(seq, k), pr, "read_bytes")
+             \cup Chk(\A j \in DOMAIN e.ret.ids2 : e.ret.ids2[j] = 238, pr, "read_wrote_past_count")
+             \cup Chk(k > n \/ ps = DropN(seq, k), pr, "contents")
+            [] e.op = "write_vectored" ->       \* any positive prefix of the concatenation
+                  LET k == e.ret.n IN
+                  Chk(e.ret.k = "n" /\ k <= Len(e.vals) /\ (Len(e.vals) > 0 => k > 0), pr, "write_count")
+             \cup Chk(k > Len(e.vals) \/ ps = LastN(seq \o Take(e.vals, k), cap), pr, "contents")
+            [] e.op = "write_fmt" -> Chk(e.ret.k = "ok", pr, "write_fmt") \cup Chk(ps = LastN(seq \o e.vals, cap), pr, "contents")
             [] OTHER -> {})
 
 (***************************************************************************)
@@ -601,7 +641,7 @@ ZExpRet(S, e) ==       \* the kind of the result
       [] e.op \in {"remove", "swap_remove_back", "swap_remove_front", "get", "get_mut", "nth_front", "nth_front_mut",
                    "nth_back", "nth_back_mut", "index", "index_mut"} -> IF e.i < n THEN "some" ELSE "none"
       [] e.op \in {"as_slices", "as_mut_slices"} -> "slices"
-      [] e.op \in {"make_contiguous", "drain", "range", "iter", "v_len"} -> "n"
+      [] e.op \in {"make_contiguous", "drain", "range", "iter", "range_mut", "iter_mut", "v_len"} -> "n"
       [] e.op \in {"v_next", "v_next_back"} -> IF HasView(S, e.v) /\ S.views[e.v].win # <<>> THEN "some" ELSE "none"
       [] OTHER -> "unit"
 ZFail(S, e) ==
@@ -621,22 +661,22 @@ ZFail(S, e) ==
            Chk(e.ret.k = ZExpRet(S, e), "C19", "return_value")
       \cup Chk(e.ret.k # "slices" \/ (e.ret.n = n /\ e.ret.slots[1] + e.ret.slots[2] = n), "C19", "slices_do_not_add_up")
       \cup Chk(e.op # "make_contiguous" \/ e.ret.n = n, "C19", "make_contiguous_len")
-      \cup Chk(e.op \notin {"drain", "range"} \/ e.ret.n = BEnd(e.be, n) - BStart(e.bs), "C19", "initial_len")
-      \cup Chk(e.op # "iter" \/ e.ret.n = n, "C19", "initial_len")
+      \cup Chk(e.op \notin {"drain", "range", "range_mut"} \/ e.ret.n = BEnd(e.be, n) - BStart(e.bs), "C19", "initial_len")
+      \cup Chk(e.op \notin {"iter", "iter_mut"} \/ e.ret.n = n, "C19", "initial_len")
       \cup Chk(e.op # "v_len" \/ ~HasView(S, e.v) \/ e.ret.n = Len(S.views[e.v].win), "C19", "len"))
   \cup \* the number of destructor runs follows the sequence semantics: everything created is in the buffer,
        \* with the caller, or destroyed
        Chk(drainAlive \/ ~e.post.obs \/ e.post.len < 0 \/ e.ret.ids2[1] - e.ret.ids2[2] = e.post.len + e.ret.ids2[3], "C19", "destructor_runs")
 ZNext(S, e) ==
     LET n == Len(BufSeq(S, e.h))
-        a == IF e.op = "iter" THEN 0 ELSE BStart(e.bs)
-        b == IF e.op = "iter" THEN n ELSE BEnd(e.be, n)
+        a == IF e.op \in {"iter", "iter_mut"} THEN 0 ELSE BStart(e.bs)
+        b == IF e.op \in {"iter", "iter_mut"} THEN n ELSE BEnd(e.be, n)
         b1 == IF e.op = "drop_buf" THEN Del(S.bufs, e.h)
               ELSE IF e.post.obs /\ e.post.len >= 0
                    THEN Upd(S.bufs, e.h, [cap |-> CapOf(S, e), seq |-> Dummy(e.post.len), slot |-> <<>>, split |-> e.post.split, lock |-> -1])
                    ELSE S.bufs
         v1 == IF e.unw THEN (IF e.op = "v_drop" THEN Del(S.views, e.v) ELSE S.views)
-              ELSE IF e.op \in {"drain", "range", "iter"}
+              ELSE IF e.op \in {"drain", "range", "iter", "range_mut", "iter_mut"}
               THEN Upd(S.views, e.v, [kind |-> IF e.op = "drain" THEN "drain" ELSE "iter", h |-> e.h, win |-> Dummy(b - a),
                                       pre |-> BufSeq(S, e.h), a |-> a, b |-> b])
               ELSE IF e.op \in {"v_next", "v_next_back"} /\ HasView(S, e.v) THEN [S.views EXCEPT ![e.v].win = DropN(@, 1)]
